@@ -511,7 +511,13 @@ class VectorizedEagleStrategy(
       prior_rewards: Optional[types.Array] = None,
   ) -> VectorizedEagleStrategyState:
     """Initializes the state."""
-    if prior_features is not None and prior_rewards is not None:
+    # With fewer prior trials than `n_parallel` there is no complete parallel
+    # batch of priors (zero rows): initialize as if no priors were given.
+    if (
+        prior_features is not None
+        and prior_rewards is not None
+        and prior_rewards.shape[0] > 0
+    ):
       if prior_features.continuous.shape[1] != n_parallel:
         raise ValueError(
             "`prior_features.continuous` dimension 1 "
